@@ -108,16 +108,20 @@ Theorem access_consistent (l : list value) : Z.of_nat (length l) < two64 ->
 Proof.
   intros Hlen.
   split; [reflexivity|]. split; [destruct l; reflexivity|]. split; [apply filter_last_nth|].
+  assert (Nth : forall r z, in_u64 z = true ->
+     filter_nth l (VInt r z) = ROk (match nth_error l (Z.to_nat z) with Some x => x | None => VNone end)).
+  { intros r z Hz. unfold filter_nth. cbn. rewrite Hz.
+    destruct (z <? Z.of_nat (length l)) eqn:E; trivial. apply Z.ltb_ge in E.
+    assert (Q : nth_error l (Z.to_nat z) = None) by (apply nth_error_None; lia). rewrite Q. reflexivity. }
+  split; [exact Nth|].
   split; [intros r z Hz; unfold filter_nth; cbn; rewrite Hz; reflexivity|].
-  split; [intros r z Hz; unfold filter_nth; cbn; rewrite Hz; reflexivity|].
-  split; [intros r; unfold filter_nth; cbn; destruct l; reflexivity|].
+  split; [intros r; rewrite Nth by reflexivity; destruct l; reflexivity|].
   split.
-  { intros r Hl. unfold filter_nth. cbn.
-    assert (Hr : in_u64 (Z.of_nat (length l - 1)) = true).
-    { unfold in_u64. apply andb_true_iff. split; [apply Z.leb_le | apply Z.ltb_lt]; lia. }
-    rewrite Hr, Nat2Z.id, filter_last_nth. reflexivity. }
+  { intros r Hl. rewrite Nth.
+    - rewrite Nat2Z.id, filter_last_nth. reflexivity.
+    - unfold in_u64. apply andb_true_iff. split; [apply Z.leb_le | apply Z.ltb_lt]; lia. }
   split.
-  { intros r z Hz Hu. unfold filter_nth. cbn. rewrite Hu.
+  { intros r z Hz Hu. rewrite Nth by assumption.
     assert (E : nth_error l (Z.to_nat z) = None) by (apply nth_error_None; lia).
     rewrite E. reflexivity. }
   split; [apply last_rev_first|]. split; [reflexivity|].
